@@ -83,8 +83,49 @@ func init() {
 	}
 }
 
-// CheckC12: Ints = [decoder index, initial-target index].
+func cloneString(s string) string { return string(append([]byte(nil), s...)) }
+
+// checkC12Sequence replays a DecodeString history on one persistent target and scratch.
+func checkC12Sequence(c *core.Case) error {
+	target := "seed value"
+	expect := cloneString(target)
+	capacity := 0
+	if len(c.Ints) > 0 {
+		capacity = int(c.Ints[0])
+	}
+	scratch := make([]byte, 0, capacity)
+	for i := range c.Steps {
+		b := []byte(c.Steps[i].In)
+		want, wp, werr := rjson.ReadString(append([]byte(nil), b...), nil)
+		p, err := rjson.DecodeString(b, &target, &scratch)
+		i0 := ref.SkipWS(b, 0)
+		switch {
+		case werr == nil:
+			if err != nil || p != wp || target != want {
+				return fmt.Errorf("call %d: ReadString gives (%q, %d) but DecodeString gives p=%d err=%v target=%q", i, want, wp, p, err, target)
+			}
+			expect = cloneString(want)
+		case hasLit(b, i0, "null"):
+			if err != nil || p != i0+4 || target != expect {
+				return fmt.Errorf("call %d on null: p=%d err=%v target=%q; want target unchanged %q", i, p, err, target, expect)
+			}
+		default:
+			if err == nil {
+				return fmt.Errorf("call %d: DecodeString accepted %q", i, b)
+			}
+			if target != expect {
+				return fmt.Errorf("call %d: DecodeString failed (%v) but the target changed from %q to %q", i, err, expect, target)
+			}
+		}
+	}
+	return nil
+}
+
+// CheckC12: Ints = [decoder index, initial-target index]; Kind "sequence": a DecodeString history.
 func CheckC12(c *core.Case) error {
+	if c.Kind == "sequence" {
+		return checkC12Sequence(c)
+	}
 	if len(c.Ints) < 2 {
 		return fmt.Errorf("bad case: need ints [decoder, init]")
 	}
